@@ -103,7 +103,11 @@ class Module:
         ct = self.ctypes.get(qual)
         if roles is None:
             from .rolespecs import ROLES
-            roles = ROLES.get((self.rel, qual))
+            try:
+                from .rolespecs_auto import AUTO
+            except ImportError:
+                AUTO = {}
+            roles = {**AUTO.get((self.rel, qual), {}), **ROLES.get((self.rel, qual), {})}
         if roles and not self.rel.endswith(".pyx"):
             from .roles import canonicalise
             fn, _ = canonicalise(self.text, fn, roles)
